@@ -10,10 +10,11 @@
   are in Properties/C01.lean, C02.lean, C11.lean.  Protocol: notes/SCHED_PROTOCOL.md.
 -/
 import OllamaVerif.Model.Sched
+import OllamaVerif.Model.SchedChan
 import Oracle.Util
 import Std.Data.HashSet
 namespace Oracle.C01
-open OllamaVerif.Sched Oracle
+open OllamaVerif.Sched OllamaVerif.SchedChan Oracle
 
 def showList (xs : List String) : String := if xs.isEmpty then "-" else joinWith "," xs
 
@@ -173,12 +174,64 @@ def runTrace (v : Variant) (cpu : Bool) (ngpus : Nat) (s0 : State) (steps : List
       | _ => "bad-op"
   go 0 [s0] steps
 
+/-! ### bounded model (Model/SchedChan.lean): can the model WEDGE along a script on which the real scheduler wedged?
+    sched-wedge <variant> <expiredOrderFixed 0|1> <idleDrains 0|1> <maxRunners> <maxQueue> <defaultSession> <cpu> <ngpus> | <ev> ; <obs> | ...
+      -> wedge                 some state of the bounded model reachable along the script (same observations) has goroutines
+                               parked inside a region and no internal action enabled
+       | no-wedge <n>          the script can be followed (n final states) but none of them is wedged
+       | diverge <k> | budget <k> | bad-op -/
+
+def keyB (b : BState) : String := key b.base ++ "#" ++ toString (repr b.parked)
+
+def actsB (cpu : Bool) (ngpus : Nat) (time : Bool) (b : BState) : List Act :=
+  internalActs cpu ngpus b.base ++ (if time then timeActs b.base else []) ++ b.parked.map (·.act)
+
+partial def closureB (v : Variant) (c : Cfg) (cpu : Bool) (ngpus : Nat) (time : Bool)
+    (work : List BState) (seen : Std.HashSet String) (acc : List BState) (fuel : Nat) : List BState :=
+  match fuel, work with
+  | 0, _ => []
+  | _, [] => acc
+  | fuel+1, b :: rest =>
+    let (work', seen') := ((actsB cpu ngpus time b).filterMap (stepB v c b)).foldl (fun (w, sn) b' =>
+      let k := keyB b'
+      if sn.contains k then (w, sn) else (b' :: w, sn.insert k)) (rest, seen)
+    closureB v c cpu ngpus time work' seen' (b :: acc) fuel
+
+def wedgedB (v : Variant) (c : Cfg) (cpu : Bool) (ngpus : Nat) (b : BState) : Bool :=
+  !b.parked.isEmpty && ((actsB cpu ngpus true b).filterMap (stepB v c b)).isEmpty
+
+def runWedge (v : Variant) (c : Cfg) (cpu : Bool) (ngpus : Nat) (b0 : BState) (steps : List (List String)) : String :=
+  let rec go (k : Nat) (cur : List BState) : List (List String) → String
+    | [] => if cur.any (wedgedB v c cpu ngpus) then "wedge" else s!"no-wedge {cur.length}"
+    | st :: rest =>
+      match splitOn ";" st with
+      | [evToks, obsToks] =>
+        match parseEv evToks with
+        | none => "bad-op"
+        | some ev =>
+          let obs := joinWith " " obsToks
+          let (starts, time) := match ev with
+            | .act a => (cur.filterMap (fun b => stepB v c b a), false)
+            | .advance => (cur, true)
+            | .nop => (cur, false)
+          let seen := starts.foldl (fun sn b => sn.insert (keyB b)) ({} : Std.HashSet String)
+          let all := closureB v c cpu ngpus time starts seen [] 12000
+          if all.isEmpty && !starts.isEmpty then s!"budget {k}" else
+          let matching := all.filter (fun b => showObs b.base == obs)
+          if matching.isEmpty then s!"diverge {k}" else go (k+1) matching rest
+      | _ => "bad-op"
+  go 0 [b0] steps
+
 def handle (toks : List String) : Option String :=
   match toks with
   | "sched-trace" :: vname :: mr :: mq :: ds :: cpu :: ng :: "|" :: rest => do
     let v ← (if vname == "good" then some Variant.good else if vname == "pinned" then some Variant.pinned else none)
     let mr ← mr.toNat?; let mq ← mq.toNat?; let ds ← ds.toNat?; let ng ← ng.toNat?
     pure (runTrace v (cpu != "0") ng (init mr mq ds) (splitOn "|" rest))
+  | "sched-wedge" :: vname :: eo :: idr :: mr :: mq :: ds :: cpu :: ng :: "|" :: rest => do
+    let v ← (if vname == "good" then some Variant.good else if vname == "pinned" then some Variant.pinned else none)
+    let mr ← mr.toNat?; let mq ← mq.toNat?; let ds ← ds.toNat?; let ng ← ng.toNat?
+    pure (runWedge v ⟨eo != "0", idr != "0"⟩ (cpu != "0") ng (initB mr mq ds) (splitOn "|" rest))
   | "victim" :: _n :: rest =>
     -- findRunnerToUnload as a function of the loaded set: triples <model id> <uint64 keep-alive> <refCount>
     let rec rows : List String → Option (List (Nat × Nat × Nat))
